@@ -33,6 +33,11 @@ TYPE_B = '_b._tcp.local.'
 LOOKUP_NAME = 'peer0.' + TYPE_B     # an instance the stream talks about (its SRV may name an odd host): the lookup must survive that
 OWN = {'type': TYPE_OWN, 'name': 'victim.' + TYPE_OWN, 'port': 8080, 'server': 'victim.local.', 'addrs': ['10.0.0.1', 'fe80::1'], 'props': '0161'}
 HOSTILE_LABELS = ['ff' * 40, 'ff' * 22, 'c3' * 63, '2e2e2e', '00', 'e2' * 30, '41' * 63, 'f0' * 16 + '80' * 16]
+# two labels that are the same name to every case-insensitive comparison (KELVIN SIGN U+212A lower-cases to 'k') but re-encode to
+# different lengths: twelve invalid bytes (three bytes each once decoded with replacement characters) followed by twelve 'k'
+# (48 bytes to write back) or twelve KELVIN SIGNs (72 bytes: not writable)
+KELVIN_PAIR = ['e9' * 12 + '6b' * 12, 'e9' * 12 + 'e284aa' * 12]
+HOSTILE_LABELS += KELVIN_PAIR
 
 
 @st.composite
@@ -142,14 +147,35 @@ def _tc_burst_case(draw, tier: str) -> Dict[str, Any]:
             'stream': stream[:pos] + burst + after, 'find': None}
 
 
+@st.composite
+def _same_name_other_length_case(draw, tier: str) -> Dict[str, Any]:
+    """Directed shape: an instance whose odd label can be written back is announced, is listed in a browser query, is withdrawn
+    and purged; then an instance is announced whose label is the same name to a case-insensitive comparison but cannot be written
+    back. Whatever the instance remembered about the first must not be applied to the second."""
+    stream = draw(st.lists(item(), min_size=0, max_size=4))
+    where = 'ptr-target'
+    mk = lambda k, ttl, gap: {'d': {'src': 'hresp', 'labels': [KELVIN_PAIR[k]], 'where': where, 'ttl': ttl, 'type_own': False}, 'gap': gap,
+                              'port': 5353, 'family': 'v4', 'sock': 0, 'client': 0, 'oversize': None, 'app': None}
+    first = draw(st.sampled_from([0, 0, 0, 1]))
+    # (a pointer is listed as a known answer only in the first half of its life: the query that lists the second instance is the
+    # 75 % refresh of another, ordinary instance of the type announced some 20-35 minutes before it)
+    other = {'d': {'src': 'hresp', 'labels': ['41' * 63], 'where': 'ptr-target', 'ttl': 4500, 'type_own': False}, 'gap': 0,
+             'port': 5353, 'family': 'v4', 'sock': 0, 'client': 0, 'oversize': None, 'app': None}
+    directed = [other, mk(first, 4500, 0), mk(first, 0, draw(st.sampled_from([4000, 5000, 14000]))),
+                mk(1 - first, 4500, draw(st.sampled_from([1300000, 2000000])))]
+    # (the block comes first: the first instance has to be listed in one of the browser's start-up queries)
+    return {'socks': draw(st.sampled_from(['v4', 'dual'])), 'seed': draw(st.integers(0, 10**6)), 'canary_junk': None,
+            'stream': directed + stream, 'find': None, 'shape': 'same-name-other-length'}
+
+
 def strategy(tier: str):
     general = st.fixed_dictionaries({'socks': st.sampled_from(['v4', 'v4', 'dual']), 'seed': st.integers(0, 10**6),
                                      'canary_junk': st.sampled_from([None, 200, 500, 900]),
                                      'find': st.sampled_from([None, None, None, 5, 60]),
                                      'poll_gap': st.sampled_from([None, None, 400, 600, 600, 999]),
                                      'stream': st.lists(item(), min_size=1, max_size=40 if tier == 'thorough' else 25)})
-    return st.integers(0, 11).flatmap(lambda k: _cut_announcement_case(tier) if k == 0 else _enumeration_case(tier) if k == 1
-                                      else _tc_burst_case(tier) if k == 2 else general)
+    return st.integers(0, 12).flatmap(lambda k: _cut_announcement_case(tier) if k == 0 else _enumeration_case(tier) if k == 1
+                                      else _tc_burst_case(tier) if k == 2 else _same_name_other_length_case(tier) if k == 3 else general)
 
 
 def build(d: Dict[str, Any]) -> bytes:
@@ -578,6 +604,8 @@ def check(case: Dict[str, Any]) -> Dict[str, Any]:
     if getattr(ex, 'finder_state', None) not in (None, 'ok'):
         raise Violation('the type enumeration the application was running (AsyncZeroconfServiceTypes.async_find) died or hung',
                         {'state': ex.finder_state}, tag='finder-' + str(ex.finder_state)[:40])
+    if case.get('shape'):
+        classes.append('directed-' + case['shape'])
     if case.get('poll_gap'):
         classes.append('poller-repeating-itself-faster-than-once-a-second')
     if case.get('find'):
